@@ -370,6 +370,12 @@ func (f *c15Family) atom1(v ssa.Value, depth int) string {
 				}
 			}
 		}
+		if name, a, b, ok := c15ClampPhi(x); ok {
+			// if a > b { a = b }  ==  min(a, b): rendered like the builtin (operands sorted)
+			as := []string{f.sub(a, depth), f.sub(b, depth)}
+			sort.Strings(as)
+			return name + "(" + strings.Join(as, ",") + ")"
+		}
 		set := map[string]bool{}
 		for _, e := range x.Edges {
 			s := f.sub(e, depth)
@@ -664,6 +670,14 @@ func (f *c15Family) call(c *ssa.Call, depth int) string {
 	callee := cc.StaticCallee()
 	if callee == nil {
 		if b, ok := cc.Value.(*ssa.Builtin); ok {
+			if b.Name() == "min" || b.Name() == "max" {
+				var as []string
+				for _, a := range cc.Args {
+					as = append(as, f.sub(a, depth))
+				}
+				sort.Strings(as)
+				return b.Name() + "(" + strings.Join(as, ",") + ")"
+			}
 			return b.Name() + "(" + f.args(cc.Args, depth) + ")"
 		}
 		return "dyn:" + f.sub(cc.Value, depth) + "(" + f.args(cc.Args, depth) + ")"
@@ -699,7 +713,7 @@ func (f *c15Family) call(c *ssa.Call, depth int) string {
 func (f *c15Family) nameSuffix(method, name string, c *ssa.Call) string {
 	if f.nameSites == nil {
 		f.nameSites = map[string]map[*ssa.Function]bool{}
-		for _, fn := range f.fns {
+		for _, fn := range f.reachFns() {
 			fw.EachInstr(fn, func(ins ssa.Instruction) {
 				call, ok := ins.(*ssa.Call)
 				if !ok {
@@ -771,4 +785,111 @@ func (f *c15Family) callLabel(c *ssa.Call) string {
 		}
 	}
 	return m
+}
+
+// reachFns: the family's functions plus, transitively, the functions (with their closures) of the
+// same-package helpers they call directly: the scope in which a field name must be unambiguous.
+// Extracting part of a decoder into a helper of the package keeps this set's field readers.
+func (f *c15Family) reachFns() []*ssa.Function {
+	pkg := fw.FnPkgPath(f.root)
+	seen := map[*ssa.Function]bool{}
+	var out []*ssa.Function
+	queue := append([]*ssa.Function{}, f.fns...)
+	for _, fn := range queue {
+		seen[fn] = true
+	}
+	for len(queue) > 0 {
+		fn := queue[0]
+		queue = queue[1:]
+		out = append(out, fn)
+		fw.EachInstr(fn, func(ins ssa.Instruction) {
+			call, ok := ins.(ssa.CallInstruction)
+			if !ok {
+				return
+			}
+			callee := call.Common().StaticCallee()
+			if callee == nil || callee.Blocks == nil || fw.FnPkgPath(callee) != pkg {
+				return
+			}
+			for _, g := range fw.WithClosures(fw.Top(callee)) {
+				if !seen[g] {
+					seen[g] = true
+					queue = append(queue, g)
+				}
+			}
+		})
+	}
+	return out
+}
+
+// c15ClampPhi recognises the two-way merge of `v := a; if a OP b { v = b }` (and the if/else
+// form) over integers as min(a,b) / max(a,b): the phi's two incoming values are exactly the two
+// operands of the comparison that selects between them.
+func c15ClampPhi(x *ssa.Phi) (string, ssa.Value, ssa.Value, bool) {
+	if len(x.Edges) != 2 || !isIntegerT(x.Type()) {
+		return "", nil, nil, false
+	}
+	blk := x.Block()
+	// the deciding If: the common dominator that ends in If and whose two arms lead to the two edges
+	d := blk.Idom()
+	if d == nil || len(d.Succs) != 2 {
+		return "", nil, nil, false
+	}
+	ifi, ok := d.Instrs[len(d.Instrs)-1].(*ssa.If)
+	if !ok {
+		return "", nil, nil, false
+	}
+	bo, ok := ifi.Cond.(*ssa.BinOp)
+	if !ok || !isIntegerT(bo.X.Type()) {
+		return "", nil, nil, false
+	}
+	// value selected when the condition holds / does not hold
+	var vt, vf ssa.Value
+	for i, pred := range blk.Preds {
+		var onTrue bool
+		switch {
+		case pred == d:
+			onTrue = d.Succs[0] == blk
+		case len(pred.Preds) == 1 && pred.Preds[0] == d && len(pred.Succs) == 1:
+			onTrue = d.Succs[0] == pred
+		default:
+			return "", nil, nil, false
+		}
+		if onTrue {
+			vt = x.Edges[i]
+		} else {
+			vf = x.Edges[i]
+		}
+	}
+	if vt == nil || vf == nil {
+		return "", nil, nil, false
+	}
+	same := func(a, b ssa.Value) bool {
+		if a == b {
+			return true
+		}
+		ca, ok1 := a.(*ssa.Const)
+		cb, ok2 := b.(*ssa.Const)
+		return ok1 && ok2 && ca.Value != nil && cb.Value != nil && ca.Value.ExactString() == cb.Value.ExactString()
+	}
+	var smallerOnTrue bool // condition true means X is the smaller (or equal) one
+	switch bo.Op {
+	case token.LSS, token.LEQ:
+		smallerOnTrue = true
+	case token.GTR, token.GEQ:
+		smallerOnTrue = false
+	default:
+		return "", nil, nil, false
+	}
+	xs, ys := bo.X, bo.Y
+	if !smallerOnTrue {
+		xs, ys = ys, xs // now: condition true means xs <= ys
+	}
+	switch {
+	case same(vt, xs) && same(vf, ys):
+		return "min", bo.X, bo.Y, true
+	case same(vt, ys) && same(vf, xs):
+		return "max", bo.X, bo.Y, true
+	}
+	return "", nil, nil, false
 }
